@@ -357,6 +357,14 @@ func (g *ProgGen) stmt(depth int) []gast.Stmt {
 			body = []gast.Stmt{g.traceStmt(gast.Ident{Name: fe.Idx}, gast.Ident{Name: fe.Var})}
 		}
 		body = append(body, g.block(depth-1, r.Intn(3))...)
+		if r.Intn(4) == 0 {
+			// leave the loop early (from however many loops enclose this one)
+			var ret gast.Stmt = gast.Return{X: g.valueExpr(1)}
+			if g.curFn != nil && !g.curFn.value {
+				ret = g.traceStmt()
+			}
+			body = append(body, gast.If{C: g.cond(1), Then: []gast.Stmt{g.traceStmt(), ret}})
+		}
 		fe.Body = body
 		g.loopVars = g.loopVars[:len(g.loopVars)-1]
 		if fe.Idx != "" {
